@@ -88,6 +88,9 @@ where
         Ok(t) => t,
         Err(pn) => return Err(Fail::new(format!("log integration panicked: {pn}"), detail(json!(pn)))),
     };
+    if let Some(c) = int.iter().chain(ind.iter()).find(|c| !c.is_finite()) {
+        return Err(Fail::new("log integration of finite coefficients through a finite knot returned a non-finite number", detail(json!({"number": fj(*c), "integral_numbers": fjs(&int)}))));
+    }
     let (q, m) = exact_q(p);
     let tiny = Dy::pow2(-40);
     // F(knot.x) = knot.y
